@@ -1,4 +1,4 @@
-//! Caller probes (`--prop C08 | C09 | C14 | C17 | C19`): small user crates, each compiled separately by rustc
+//! Caller probes (`--prop C08 | C09 | C13 | C14 | C17 | C19`): small user crates, each compiled separately by rustc
 //! against the current crate (harness::probe), that use a property's operations the way downstream code
 //! does and the harness crate itself does not:
 //!   * generic over the length / element type, stating exactly the bounds the trait impls publish
@@ -173,6 +173,54 @@ fn main() {
 "#,
             expect: "[0, 0, 0] [0, 0]\n[0, 0, 0]\n",
         }],
+        "C13" => vec![
+            Caller {
+                what: "comparisons whose other side is INFERRED from the array (Default::default(), .into(), collect()): one candidate impl only",
+                externs: &[],
+                src: r#"
+fn main() {
+    let a: GenericArray<String, U3> = Default::default();
+    println!("{}", a == Default::default());
+    let b = arr![1u8, 2, 3];
+    println!("{} {}", b == [1, 2, 3].into(), b != GenericArray::default());
+    println!("{}", b == (1u8..4).collect());
+    println!("{:?}", b.partial_cmp(&[1, 2, 4].into()));
+    println!("{:?}", b.cmp(&Default::default()));
+    let e = GenericArray::<u32, U0>::default();
+    println!("{}", e == Default::default() && e <= Default::default());
+}
+"#,
+                expect: "true\ntrue true\ntrue\nSome(Less)\nGreater\ntrue\n",
+            },
+            Caller {
+                what: "hashing, comparing and printing in code generic over T and N with the published bounds; map lookups through the slice",
+                externs: &[],
+                src: r#"
+use std::collections::{BTreeMap, HashMap};
+use std::hash::Hash;
+fn look<T: Hash + core::cmp::Eq + core::cmp::Ord + Clone + core::fmt::Debug, N: ArrayLength>(k: GenericArray<T, N>) -> (bool, bool, String) {
+    let mut h: HashMap<GenericArray<T, N>, u8> = HashMap::new();
+    h.insert(k.clone(), 1);
+    let mut b: BTreeMap<GenericArray<T, N>, u8> = BTreeMap::new();
+    b.insert(k.clone(), 2);
+    let s: &[T] = &k;
+    (h.get(s) == Some(&1), b.get(s) == Some(&2), format!("{:?}", k))
+}
+#[derive(Clone, Copy, Debug, PartialEq, Eq, PartialOrd, Ord, Hash)]
+enum Dir { N, E, S }
+fn main() {
+    println!("{:?}", look(arr![Dir::N, Dir::S, Dir::E]));
+    println!("{:?}", look(arr![[7u8; 1], [9u8; 1]]));
+    let (x, y) = (String::from("p"), String::from("q"));
+    println!("{:?}", look(arr![&x, &y]));
+    println!("{:?}", look(arr![true, false]));
+    println!("{:?}", look(arr!['a', 'b']));
+    println!("{:?}", look(GenericArray::<u64, U0>::default()));
+}
+"#,
+                expect: "(true, true, \"[N, S, E]\")\n(true, true, \"[[7], [9]]\")\n(true, true, \"[\\\"p\\\", \\\"q\\\"]\")\n(true, true, \"[true, false]\")\n(true, true, \"['a', 'b']\")\n(true, true, \"[]\")\n",
+            },
+        ],
         other => panic!("no caller programs for {}", other),
     }
 }
